@@ -1,12 +1,13 @@
 """C16 — built-in events: theorems in lean/PamsProps/C16.lean (models PamsModel/Events.lean,
 Hooks.lean), tie = Driver/Events.lean at Float (unit level) + Driver/Runner.lean (whole runs)."""
 import events_props
+import py_checks
 import runner_props
 
 PROP = "C16"
 LEAN_MODULES = ["PamsProps.C16", "PamsProps.SimE2E"]
 NAMESPACES = ["Pams.C16", "Pams.C16"]
-DRIVERS = ["Events", "Runner", "Sim"]
+DRIVERS = ["Events", "Runner", "Sim", "PyRun"]
 TRUSTED = [
     "arithmetic theorems are over ordered fields; the same Lean definitions are evaluated at Float and compared with Python bit-for-bit (tolerance 1e-12 only where noted)",
     "event objects are driven through their public handlers; whole runs are observed through the instrumented simulator",
@@ -25,7 +26,8 @@ def run(ctx, model_available=True):
         compared, diffs = events_props.run_units(PROP, ctx, 300 * (ctx.scale if ctx.tier == "thorough" else 1))
         res["diffs"] = res["diffs"] + diffs[:30]
         res["comparisons"]["unit_comparisons"] = compared
-    return res
+    # (T2) the translated source of the event handlers under the mini-Python semantics, against CPython
+    return py_checks.merge(res, ctx, ["event"], n_each=90, model_available=model_available)
 
 
 def search(ctx, res):
